@@ -141,7 +141,7 @@ func matchNor(ctx Context, doc bsonkit.Doc, name, path string, v interface{}) er
 }
 
 func matchComp(_ Context, doc bsonkit.Doc, op, path string, v interface{}) error {
-	return matchUnwind(doc, path, true, false, func(field interface{}) error {
+	return matchUnwind(doc, path, false, func(field interface{}) error {
 		// determine if comparable (type bracketing)
 		lc, _ := bsonkit.Inspect(field)
 		rc, _ := bsonkit.Inspect(v)
@@ -202,7 +202,7 @@ func matchNot(ctx Context, doc bsonkit.Doc, name, path string, v interface{}) er
 }
 
 func matchIn(_ Context, doc bsonkit.Doc, name, path string, v interface{}) error {
-	return matchUnwind(doc, path, true, false, func(field interface{}) error {
+	return matchUnwind(doc, path, false, func(field interface{}) error {
 		// get array
 		array, ok := v.(bson.A)
 		if !ok {
@@ -254,7 +254,7 @@ func matchExists(_ Context, doc bsonkit.Doc, _, path string, v interface{}) erro
 	// collect values along the path; All traverses arrays of subdocs and
 	// drops Missing entries when compact is set, so a non-empty result means
 	// at least one element along the path produced a value
-	value, multi := bsonkit.All(doc, path, true, true)
+	value, multi := bsonkit.All(doc, path, true, false)
 	found := false
 	if multi {
 		if arr, ok := value.(bson.A); ok {
@@ -300,7 +300,7 @@ func matchType(_ Context, doc bsonkit.Doc, name, path string, v interface{}) err
 		}
 	}
 
-	return matchUnwind(doc, path, true, false, func(field interface{}) error {
+	return matchUnwind(doc, path, false, func(field interface{}) error {
 		// a missing field has no type
 		if field == bsonkit.Missing {
 			return ErrNotMatched
@@ -376,7 +376,7 @@ func matchJSONSchema(_ Context, doc bsonkit.Doc, name, _ string, v interface{}) 
 }
 
 func matchAll(_ Context, doc bsonkit.Doc, name, path string, v interface{}) error {
-	return matchUnwind(doc, path, false, true, func(field interface{}) error {
+	return matchUnwind(doc, path, true, func(field interface{}) error {
 		// get array
 		array, ok := v.(bson.A)
 		if !ok {
@@ -443,9 +443,9 @@ func matchSize(_ Context, doc bsonkit.Doc, name, path string, v interface{}) err
 
 	// get value (do not unwind: $size compares against the array at the path,
 	// not its elements)
-	value, multi := bsonkit.All(doc, path, false, false)
+	value, multi := bsonkit.All(doc, path, true, false)
 
-	// check each per-subdocument value when the path crossed a subdoc array
+	// check each value found when the path crossed a subdoc array
 	if multi {
 		arr, ok := value.(bson.A)
 		if !ok {
@@ -538,7 +538,7 @@ func matchMod(_ Context, doc bsonkit.Doc, name, path string, v interface{}) erro
 		return fmt.Errorf("%s: divisor cannot be zero", name)
 	}
 
-	return matchUnwind(doc, path, true, false, func(field interface{}) error {
+	return matchUnwind(doc, path, false, func(field interface{}) error {
 		// non-numeric or non-finite fields do not match
 		n, ok := numberToInt64(field)
 		if !ok {
@@ -601,7 +601,7 @@ func matchBits(_ Context, doc bsonkit.Doc, op, path string, v interface{}) error
 		return err
 	}
 
-	return matchUnwind(doc, path, true, false, func(field interface{}) error {
+	return matchUnwind(doc, path, false, func(field interface{}) error {
 		// resolve a per-position bit accessor for the field; non-numeric
 		// and non-binary fields never match
 		bitAt, ok := bitAccessor(field)
@@ -770,9 +770,38 @@ func bitAccessor(field interface{}) (func(uint) bool, bool) {
 	}
 }
 
-func matchUnwind(doc bsonkit.Doc, path string, merge, yieldMerge bool, op func(interface{}) error) error {
-	// get value
-	value, multi := bsonkit.All(doc, path, true, merge)
+func matchUnwind(doc bsonkit.Doc, path string, yieldAll bool, op func(interface{}) error) error {
+	// get value; if the path crossed an array of embedded documents the
+	// result is the list of the values found in them
+	value, multi := bsonkit.All(doc, path, true, false)
+	if !multi {
+		return matchLeaf(value, op)
+	}
+
+	// match every collected value like a directly addressed field
+	if leaves, ok := value.(bson.A); ok {
+		for _, leaf := range leaves {
+			err := matchLeaf(leaf, op)
+			if err == ErrNotMatched {
+				continue
+			} else if err != nil {
+				return err
+			}
+
+			return nil
+		}
+	}
+
+	// match all collected values as one array
+	if yieldAll {
+		return op(value)
+	}
+
+	return ErrNotMatched
+}
+
+func matchLeaf(value interface{}, op func(interface{}) error) error {
+	// match the elements of an array
 	if arr, ok := value.(bson.A); ok {
 		for _, field := range arr {
 			err := op(field)
@@ -787,11 +816,7 @@ func matchUnwind(doc bsonkit.Doc, path string, merge, yieldMerge bool, op func(i
 	}
 
 	// match value
-	if !multi || yieldMerge {
-		return op(value)
-	}
-
-	return ErrNotMatched
+	return op(value)
 }
 
 func matchNegate(op func() error) error {
